@@ -307,6 +307,10 @@ func (t *Thread) processIncomingInterest(packet *defn.Pkt) {
 				core.LogWarn(t, "Interest ", packet.Name, " cannot be sent to non-local FaceID=", *packet.NextHopFaceID, " since violates /localhost scope - DROP")
 				return
 			}
+			if nextHopFace.FaceID() == incomingFace.FaceID() && nextHopFace.LinkType() != defn.AdHoc {
+				core.LogDebug(t, "Attempting to send Interest=", packet.Name, " back to incoming face - DROP")
+				return
+			}
 			core.LogTrace(t, "NextHopFaceId is set for Interest ", packet.Name, " - dispatching directly to face")
 			dispatch.GetFace(*packet.NextHopFaceID).SendPacket(dispatch.OutPkt{
 				Pkt:      packet,
